@@ -46,6 +46,38 @@ class StreamFault(IOError):
     pass
 
 
+class ServerStop(BaseException):
+    """a BaseException that is not an Exception, as servers / frameworks define them for "stop now" (like KeyboardInterrupt,
+    SystemExit, trio.Cancelled): `except Exception` does not see it, `finally` does"""
+
+
+def fault_class(name):
+    """HOW streaming is interrupted - the class of what the stream / the server's send / close() raises: an Exception subclass,
+    or one of the BaseException-only classes (asyncio.CancelledError is what an ASGI server's task cancellation raises inside the app)"""
+    import asyncio
+    return {'exception': StreamFault, 'oserror': OSError, 'cancelled': asyncio.CancelledError, 'generator_exit': GeneratorExit,
+            'base': ServerStop}[name or 'exception']
+
+
+FAULT_CLASSES = ['exception', 'cancelled', 'generator_exit', 'base']
+# what the truth value of a stream OBJECT may be (None = an ordinary object: truthy, no __len__ / __bool__)
+TRUTHS = [None, 'len0', 'bool_false', 'len_pos', 'true_then_false', 'false_then_true']
+
+
+def falsy_at_first_look(truth):
+    return truth in ('len0', 'bool_false', 'false_then_true')
+
+
+async def cancelled_here():
+    """The server cancels the task that runs the application while it is suspended at this await (what ASGI servers do when the
+    client goes away): the task waits on a future, task.cancel() is called from outside the task by the event loop."""
+    import asyncio
+    loop = asyncio.get_running_loop()
+    fut = loop.create_future()
+    loop.call_soon(asyncio.current_task().cancel)
+    await fut
+
+
 NONE = 'N'   # an item of a stream's hand-out sequence: the stream returns / yields None at that call (ASGI only)
 
 
@@ -54,8 +86,11 @@ class Probe:
     at the `fail`-th call, counts close().  step() returns None once the items are exhausted (the stream then ends
     the way its kind does: b'' / StopIteration / StopAsyncIteration / return)."""
 
-    def __init__(self, chunks, fail, reader=None):
+    def __init__(self, chunks, fail, reader=None, fail_class=None, close_class=None, cancel_at=None):
         self.chunks, self.fail, self.calls, self.closed, self.finalized = list(chunks), fail, 0, 0, 0
+        # fail_class: what the failing call raises; close_class: close() itself raises that (after being counted);
+        # cancel_at: ['call', i] / ['close'] - ASGI: the app task is cancelled while it is suspended in that call
+        self.fail_class, self.close_class, self.cancel_at, self.truth_looks = fail_class, close_class, cancel_at, 0
         # reader: a file-like object that honours the size argument of read(n) and may return FEWER bytes than asked
         # for while more data is still to come (see gen_reader); sizes = the n of every read(n) call it received
         self.reader, self.pos, self.sizes = reader, 0, []
@@ -65,7 +100,7 @@ class Probe:
         i = self.calls
         self.calls += 1
         if self.fail == i:
-            raise StreamFault(f'stream fault at call {i}')
+            raise fault_class(self.fail_class)(f'stream fault at call {i}')
         if self.reader is not None:
             self.sizes.append(n)
             k = reader_cap(self.reader, i)
@@ -77,14 +112,55 @@ class Probe:
         return self.chunks.pop(0) if self.chunks else None
 
 
-def make_stream(kind, probe):
+def _closed_sync(probe):
+    probe.closed += 1
+    if probe.close_class is not None:
+        raise fault_class(probe.close_class)('close() fault')
+
+
+async def _closed_async(probe):
+    probe.closed += 1
+    if probe.cancel_at == ['close']:
+        await cancelled_here()
+    if probe.close_class is not None:
+        raise fault_class(probe.close_class)('close() fault')
+
+
+async def _before_call(probe):
+    if probe.cancel_at == ['call', probe.calls]:
+        probe.calls += 1
+        await cancelled_here()
+
+
+def _truth(cls, probe, truth):
+    """Give the stream class a truth value of its own: __len__ (0 / positive: e.g. "chunks buffered so far") or __bool__ (constant,
+    or changing after the first look)."""
+    if truth == 'len0':
+        cls.__len__ = lambda self: _looked(probe, 0)
+    elif truth == 'len_pos':
+        cls.__len__ = lambda self: _looked(probe, 3)
+    elif truth == 'bool_false':
+        cls.__bool__ = lambda self: _looked(probe, False)
+    elif truth == 'true_then_false':
+        cls.__bool__ = lambda self: _looked(probe, probe.truth_looks == 0)
+    elif truth == 'false_then_true':
+        cls.__bool__ = lambda self: _looked(probe, probe.truth_looks != 0)
+
+
+def _looked(probe, value):
+    probe.truth_looks += 1
+    return value
+
+
+def make_stream(kind, probe, truth=None):
     if kind in ('file', 'file-noclose'):
         class F:
             def read(self, n=-1):
                 c = probe.step(n)
                 return b'' if c is None else c
         if kind == 'file':
-            F.close = lambda self: setattr(probe, 'closed', probe.closed + 1)
+            F.close = lambda self: _closed_sync(probe)
+        _truth(F, probe, truth)
         return F()
     if kind in ('iter', 'iter-noclose'):
         class I:  # noqa: E742
@@ -97,7 +173,8 @@ def make_stream(kind, probe):
                     raise StopIteration
                 return c
         if kind == 'iter':
-            I.close = lambda self: setattr(probe, 'closed', probe.closed + 1)
+            I.close = lambda self: _closed_sync(probe)
+        _truth(I, probe, truth)
         return I()
     if kind == 'gen':
         def g():
@@ -113,14 +190,16 @@ def make_stream(kind, probe):
     if kind in ('afile', 'afile-noclose'):
         class AF:
             async def read(self, n=-1):
+                await _before_call(probe)
                 c = probe.step(n)
                 if c is NONE:
                     return None
                 return b'' if c is None else c
         if kind == 'afile':
             async def close(self):
-                probe.closed += 1
+                await _closed_async(probe)
             AF.close = close
+        _truth(AF, probe, truth)
         return AF()
     if kind in ('aiter', 'aiter-noclose'):
         class AI:
@@ -128,6 +207,7 @@ def make_stream(kind, probe):
                 return self
 
             async def __anext__(self):
+                await _before_call(probe)
                 c = probe.step()
                 if c is None:
                     raise StopAsyncIteration
@@ -135,8 +215,9 @@ def make_stream(kind, probe):
                 return None if c is NONE else c
         if kind == 'aiter':
             async def close(self):
-                probe.closed += 1
+                await _closed_async(probe)
             AI.close = close
+        _truth(AI, probe, truth)
         return AI()
     if kind == 'agen':
         async def ag():
@@ -188,7 +269,7 @@ def gen_hist(rnd, p):
     return ops
 
 
-def gen_plan(rnd, sse_ok=True, errors_ok=True, hist_ok=False, none_ok=False):
+def gen_plan(rnd, sse_ok=True, errors_ok=True, hist_ok=False, none_ok=False, obj_ok=False):
     form, value, code = rnd.choice(STATUSES)
     p = {'status_form': form, 'status': value, 'code': code, 'method': rnd.choice(METHODS)}
     srcs = rnd.sample(['text', 'data', 'media', 'stream'], rnd.choice([0, 1, 1, 1, 1, 2, 2, 3, 4]))
@@ -205,6 +286,13 @@ def gen_plan(rnd, sse_ok=True, errors_ok=True, hist_ok=False, none_ok=False):
             # ASGI only: the stream hands out None at that call (before chunk j; j = len: after the last chunk).  For an
             # async iterator / generator that is the documented end-of-body marker (the chunks behind it are never sent)
             p['stream']['none_at'] = rnd.choice([None, None, len(ch), len(ch), rnd.randint(0, len(ch))])
+        if obj_ok and kind != 'gen' and rnd.random() < 0.45:
+            # the stream OBJECT: its truth value (a generator object cannot have one of its own) ...
+            p['stream']['truth'] = rnd.choice(TRUTHS[1:])
+        if obj_ok and rnd.random() < 0.3:
+            # ... and whether it is handed over with resp.set_stream(stream, content_length): the length its chunks really have
+            # (what the documentation asks for), sometimes another one
+            p['stream']['declared'] = rnd.choice([declared_length(p['stream']), declared_length(p['stream']), 0, 1, 4096])
     else:
         p['stream'] = None
     p['cl'] = rnd.choice([None, None, None, '3', '999', 7])
@@ -229,6 +317,16 @@ def gen_plan(rnd, sse_ok=True, errors_ok=True, hist_ok=False, none_ok=False):
         p['hist'] = gen_hist(rnd, p)
         p['hist_hdr_first'] = rnd.random() < 0.5
     return p
+
+
+def declared_length(st):
+    """the number of bytes the stream's chunks hold (up to the first b'' of a file-like object)"""
+    n = 0
+    for c in st['chunks']:
+        if c == b'' and st['kind'].startswith('file'):
+            break
+        n += len(c)
+    return n
 
 
 # ---------------------------------------------------------------- file-like streams with short reads (C06)
@@ -377,6 +475,16 @@ def render_fails(p):
     return (p['ct'] or p['dflt']) not in SUPPORTED_MEDIA_TYPES or p['media'] == 'unserialisable'
 
 
+def declared_content_length(p):
+    """The Content-Length the APPLICATION declared for the response (None: it declared none), by the documented meaning of
+    resp.content_length and resp.set_stream(stream, content_length): whichever was assigned last in fill()."""
+    cl = None if p['cl'] is None else str(p['cl'])
+    st = p['stream']
+    ds = None if st is None or st.get('declared') is None else str(st['declared'])
+    hdr_first = p.get('hist') is not None and hist_hdr_first(p)
+    return (ds if ds is not None else cl) if hdr_first else (cl if cl is not None else ds)
+
+
 def in_model(p):
     """Fz (Finalize.lean) models the tails of the two __call__s for a responder that returned normally."""
     return (p['raise'] is None and p['sse'] is None and p['resp_class'] != 'render' and not p['extra_set_cookie']
@@ -466,9 +574,15 @@ def fill(resp, p, asgi, snapshot=None):
             snapshot['renders'] = renders
     probe = None
     if p['stream'] is not None:
-        probe = Probe(stream_items(p, asgi), p['stream']['fail'], p['stream'].get('reader'))
-        kind = p['stream']['kind']
-        resp.stream = make_stream(ASYNC_OF[kind] if asgi else kind, probe)
+        st = p['stream']
+        probe = Probe(stream_items(p, asgi), st['fail'], st.get('reader'), st.get('fail_class'), st.get('close_class'),
+                      st.get('cancel_at') if asgi else None)
+        kind = st['kind']
+        stream = make_stream(ASYNC_OF[kind] if asgi else kind, probe, st.get('truth'))
+        if st.get('declared') is not None:
+            resp.set_stream(stream, st['declared'])
+        else:
+            resp.stream = stream
     if p['sse'] is not None and asgi:
         evs = sse_events(p['sse'])
 
@@ -597,8 +711,10 @@ def hist_line(p, snapshot):
             ops.append('M:' + B(None if op[1] is None else b'' if op[1] == 'unserialisable' else media_bytes(op[1])))
         else:
             ops.append('R:%d' % flags.pop(0))
-    ops = hdr_ops + ops if hist_hdr_first(p) else ops + hdr_ops
     st = p['stream']
+    # resp.set_stream(stream, n) assigns Content-Length, too: after the history, before a late header block
+    decl = ['H:' + hs('content-length') + ':' + hs(str(st['declared']))] if st is not None and st.get('declared') is not None else []
+    ops = hdr_ops + ops + decl if hist_hdr_first(p) else ops + decl + hdr_ops
     stream = '-' if st is None else ('f' if st['kind'].startswith('file') else 'i') + ':' + (','.join(hx(c) for c in st['chunks']) or '.')
     fail = '-' if st is None or st['fail'] is None else st['fail']
     return (f"hist status={p['code']} head={1 if p['method'] == 'HEAD' else 0} stream={stream} fail={fail} "
